@@ -66,7 +66,8 @@ Judge(e) ==
     (IF JudgedOther(e) /\ \E k \in DOMAIN e.reqs : e.reqs[k].mint > lo \/ e.reqs[k].maxt < hi
        THEN {"ext-store-range-covers-query"} ELSE {})
 
-(* Model conformance (never a verdict): the algorithm-level pipeline predicts the samples.       *)
+(* Model conformance (never a verdict): the algorithm-level pipeline predicts the samples inside *)
+(* the query range.                                                                              *)
 NoTies(chs) == \A c, d \in chs : (c.min = d.min /\ c.max = d.max) => c.samples = d.samples
 Drift(e) ==
     /\ e.drift /\ e.err = ""
@@ -74,8 +75,8 @@ Drift(e) ==
          LET G == Group(Reps(e), RLof(e), e.series[i].lbls)
              chs == GroupChunks(G, e.cfg.lo, e.cfg.hi) IN
          /\ G # {} /\ NoTies(chs)
-         /\ e.series[i].samples # (IF RLof(e) # {} THEN PipelineDedup(chs, e.cfg.lo, e.cfg.hi)
-                                                  ELSE PipelinePlain(chs, e.cfg.lo, e.cfg.hi))
+         /\ InRange(e.series[i].samples, e.cfg.lo, e.cfg.hi) #
+                (IF RLof(e) # {} THEN PipelineDedup(chs, e.cfg.lo, e.cfg.hi) ELSE PipelinePlain(chs, e.cfg.lo, e.cfg.hi))
 
 VARIABLE l
 TraceInit == l = 1
